@@ -553,7 +553,7 @@ def replicate_rows_query(
         # specify which power table we want to join with
         .extend(
             {
-                power_key_colname: f'"p" %+% ({count_column_name}.log() / (2).log()).ceil().as_int64()'
+                power_key_colname: f'"p" %+% ({count_column_name}.maximum(1).log() / (2).log()).ceil().as_int64()'
             }
         )
         # get one row for each number less than or equal to power by under-specified join
